@@ -216,7 +216,15 @@ fn decode(u: &mut Unstructured, restricted: Option<&[SKind]>, plain_world: bool)
     let (rel, qtype, lie) = if mode == 7 {
         (0, T_A, Some(pick(u, 10)))
     } else {
-        (pick(u, RELS.len()), QTYPES[pick(u, QTYPES.len())], None)
+        let rel = pick(u, RELS.len());
+        let qtype = QTYPES[pick(u, QTYPES.len())];
+        // (added later, without changing how many octets are consumed: the
+        // replayed-wildcard-NSEC lies, variants 10..)
+        if mode == 6 && rel % 2 == 1 {
+            (0, T_A, Some(10 + (rel / 2) % 4))
+        } else {
+            (rel, qtype, None)
+        }
     };
     let flags = byte(u);
     let authority_ns = flags & 0x07 == 0x07;
@@ -321,7 +329,7 @@ fn run_case(case: &Case, ctx: &mut Ctx) -> CaseResult {
     // parent that is not secure: the RRset is parent-side data (no anchor →
     // indeterminate/insecure), yet it sits at a name the anchor declares
     // secure. Both readings are defensible: no expectation.
-    if qtype == T_DS && w.zones.iter().any(|z| z.has_ta && name_eq(&z.apex, &qname)) {
+    if qtype == T_DS && w.zones.iter().any(|z| z.has_ta && z.parent.is_some() && name_eq(&z.apex, &qname)) {
         ctx.class("ds-of-anchored-name");
         truth_expected = None;
     }
@@ -760,6 +768,8 @@ fn health(c: &BTreeMap<String, u64>, thorough: bool) -> Result<(), String> {
         ("query:lie-nodata", 100),
         ("query:lie-nxdomain", 100),
         ("query:lie-wildcard", 50),
+        ("query:lie-nxdomain-wildcard-nsec-replayed-one-label", 100),
+        ("query:lie-nxdomain-wildcard-nsec-replayed-two-labels", 30),
         ("zone-status:Secure", 3000),
         ("zone-status:Insecure", 500),
         ("zone-status:Indeterminate", 100),
